@@ -9,6 +9,7 @@
  *
  * Events:  L <bytes>  write the bytes to the daemon's stdin pipe, call the read handler until drained
  *          T <id>     fire the pending request timer of client <id> (one-shot semantics)
+ *          O          fire a pending request timer that belongs to no live request (enabled only if the audit finds one)
  *          R <path>   conf_read(path) - the body of the SIGUSR1 handler
  *          E          end of input; the grandchild returns into main() and takes the real exit path
  */
@@ -28,6 +29,7 @@ void vh_core_read(void);
 int vh_core_started(void);
 size_t vh_core_inbuf_len(void);
 int vh_core_fire_timeout(int id);
+int vh_core_fire_orphan(void);
 struct iauth_request *vh_core_first_req(void);
 struct iauth_request *vh_core_next_req(struct iauth_request *req);
 void vh_core_dump_head(FILE *f);
@@ -148,6 +150,8 @@ static int apply_event(struct ev *e, int *rc)
         return 0;
     case 'T':
         return vh_core_fire_timeout(atoi(e->data)) ? 0 : 1;
+    case 'O':
+        return vh_core_fire_orphan() ? 0 : 1;
     case 'R':
         *rc = conf_read(e->data);
         return 0;
